@@ -86,7 +86,7 @@ Example C07_example_payload :
   let nodes := [PText (lit "a "); PBreak; PStyleStart [(lit "tts:color", lit "r&d")]; PStyleStart [];
                 PText (lit "x<y"); PStyleEnd; PText (lit "z"); PStyleEnd] in
   recreate_text false false nodes
-  = (lit "a<br/>" ++ [10; 32; 32; 32; 32] ++ lit "<span tts:color=""r&amp;d"">x&lt;y</span> z", false)
+  = (lit "a<br/>" ++ [10; 32; 32; 32; 32] ++ lit "<span tts:color=""r&amp;d"">x&lt;y</span>z", false)
   /\ exists evs, content_parse (fst (recreate_text false false nodes)) = Some evs.
 Proof. split; [vm_compute; reflexivity|eexists; vm_compute; reflexivity]. Qed.
 Example C07_example_document :
